@@ -1,4 +1,4 @@
-"""C32 - PAINT fills exactly the enclosed region.
+"""C32 - PAINT fills exactly the enclosed region (solid, tiled, tiled with background pattern).
 
 Correspondence: a real Session in graphics modes (SCREEN 1, 2, 7, 9), with VIEW, VIEW SCREEN and without VIEW;
 the pixel buffer is prepared directly, `PAINT (x,y)[,c][,b]` runs as a one-line program under ON ERROR, and
@@ -194,19 +194,26 @@ class C32(core.Check):
     MODEL_IMPORTS = ['model.Flood']
     QUICK_CASES = 500
     THOROUGH_CASES = 6000
-    TRUSTED = ['hand model model/Flood.v of Graphics.paint_/_flood_fill/_scanline_until/_check_scanline for the '
-               'solid-colour case (no tile pattern, no background pattern), tied by correspondence on the '
-               'pixel buffer of a real Session; ByteMatrix slicing and GraphicsViewPort clipping are modelled '
-               '(cell reads / range writes), not verified',
+    TRUSTED = ['hand model model/Flood.v of Graphics.paint_/_flood_fill/_scanline_until/_check_scanline (solid colour, '
+               'tile pattern, tile + background pattern), tied by correspondence on the pixel buffer of a real Session; '
+               'ByteMatrix slicing and GraphicsViewPort clipping are modelled (cell reads / range writes), not verified',
+               'the unpacked tile / background row are taken from the mode\'s build_tile (bit packing is not modelled); '
+               'STEP and WINDOW coordinates are converted to the physical seed by a reference formula in the harness and '
+               'the model takes that integer seed (the conversion itself is tested, not proved)',
                'most cases without VIEW compare a walled sub-rectangle of the screen with the model run on that '
                'rectangle as viewport (the rest of the screen must stay unchanged), a few compare the full '
-               '320x200 screen by checksum; WINDOW/STEP coordinates, tile and background patterns are not '
-               'part of the modelled case']
-    PARTIAL = None
+               '320x200 screen by checksum']
+    PARTIAL = ('tiled PAINT: soundness is proved for every tile/background; termination and completeness only for '
+               'patterns whose stop condition is "the run shows the tile" (solid, or tile without all-zero rows and '
+               'without background pattern: C32_tile_terminates_partial, C32_tile_complete_partial); termination for '
+               'all tiles is refuted (C32_tile_terminates_refuted, known finding K32a); tiles with isolated zero rows or '
+               'with a background pattern: termination/completeness tested only')
     RULE = ('pictures (maze, spiral, thin diagonals, noise, combs, blobs; sprinkled with cells already of the fill '
             'colour and third colours) in a viewport of at most 26x18 pixels placed by VIEW / VIEW SCREEN / walled '
             'rectangle in SCREEN 1, 2, 7, 9, plus full-screen 320x200 pictures of random rectangles without VIEW '
-            '(compared by checksum); seeds inside, on border cells, in the margin and far outside; fill and '
+            '(compared by checksum); 30% tiled fills (1-8 tile rows, zero rows, lengths not a multiple of the plane '
+            'count, background patterns equal/unequal to tile rows incl. the illegal combinations), 10% seeds given '
+            'through STEP or WINDOW [SCREEN]; seeds inside, on border cells, in the margin and far outside; fill and '
             'border attributes incl. omitted, clamped (> number of attributes) and illegal (<0, >255, >32767). '
             'non-trivial = PAINT changed at least one pixel; distinct by hash of (case, output)')
     histogram = None
@@ -381,6 +388,7 @@ class C32(core.Check):
                 rect = [rx, ry]
                 vx0, vy0 = rx, ry                      # seeds are absolute
                 inner = (rx + left, ry + top, w, h)
+                poff = (left, top)
                 if border == 0:
                     # the blank screen outside the rectangle is border colour as well: still enclosed
                     pass
@@ -402,6 +410,7 @@ class C32(core.Check):
                 rows += [[mar() for _ in range(tw)] for _ in range(mb)]
                 vx0, vy0 = (x0, y0) if kind == 'viewscreen' else (0, 0)
                 inner = (vx0, vy0, w, h)
+                poff = (ml, mt)
             # seed
             ix, iy, iw, ih = inner
             r = rng.random()
@@ -454,13 +463,42 @@ class C32(core.Check):
                     tb = tb[:-rng.randrange(1, 4)] or tb                     # length not a multiple of 4: padded
                 case['tile'] = tb
                 case['c'] = None
+                # border default of a tiled PAINT is the foreground: keep the border the picture was drawn with
+                bb = case['b']
+                if bb is None or 0 <= bb <= 255:
+                    if ref_attr(na, fgv, -1 if bb is None else bb) != border:
+                        case['b'] = border
                 if case['b'] is not None and not 0 <= case['b'] <= 255 and rng.random() < 0.7:
-                    case['b'] = rng.randrange(na)
+                    case['b'] = border
                 q = rng.random()
                 if q < 0.15:
                     case['bgp'] = tb[:planes] if rng.random() < 0.5 else tb[-planes:]   # equals a tile row
                 elif q < 0.3:
                     case['bgp'] = [rng.choice(pool + [0]) for _ in range(rng.choice([planes, planes, 1, 2 * planes]))]
+                if case.get('bgp') and rng.random() < 0.5:
+                    # picture already showing the background row / the tile, cut by wall columns into runs whose
+                    # width is around the tile width (the background rule compares the run width with it)
+                    tile_u, bg_u = self.tile_rows(case)
+                    th_, tw_ = len(tile_u), len(tile_u[0])
+                    usebg = rng.random() < 0.7
+                    gap = rng.choice([tw_ - 1, tw_, tw_, tw_ + 1, 2 * tw_])
+                    off = rng.randrange(gap + 1)
+                    for j in range(h):
+                        for i in range(w):
+                            if (i - off) % (gap + 1) == gap and rng.random() < 0.9:
+                                val = border
+                            else:
+                                val = bg_u[(ix + i) % len(bg_u)] if usebg else tile_u[(iy + j) % th_][(ix + i) % tw_]
+                            rows[poff[1] + j][poff[0] + i] = val
+                    if case['coord'] if 'coord' in case else False:
+                        pass
+                    sx_, sy_ = case['seed'][0] - ix, case['seed'][1] - iy
+                    if 0 <= sx_ < w and 0 <= sy_ < h and rows[poff[1] + sy_][poff[0] + sx_] == border:
+                        free = [(i, j) for j in range(h) for i in range(w) if rows[poff[1] + j][poff[0] + i] != border]
+                        if free:
+                            i, j = rng.choice(free)
+                            case['seed'] = [ix + i, iy + j]
+                    bump('attrs', 'prepainted-bg')
                 bump('attrs', 'tile' + ('+bg' if case.get('bgp') is not None else ''))
             elif r < 0.4 and kind != 'walled' and seed[0] == int(seed[0]):
                 if rng.random() < 0.5:
